@@ -79,7 +79,13 @@ Additions of the control-flow ties of C04 / C12 (marked `[loop ties e3]`; additi
                object after the call (refused when x is aliased by a plain `y = x` / `x = y` anywhere in the function);
                spec key `raising_calls=['f', ..]`: the statement `f(args)` (result discarded), f being a function-typed
                parameter with result B read as "this call raises", is `raised__ = raised__ or f(args)` (raised__ is bound by
-               `init` and named in `returns`; the values computed after a raising call are those of the continuing path)"""
+               `init` and named in `returns`; the values computed after a raising call are those of the continuing path)
+Additions of the loop ties of wave e4 (C14 / C16 / C07; marked `[loop ties e4]`; additive, fail-closed):
+  expressions: `s in L` / `s not in L` with L a declared list of strings (LS) and s a str: Base/Str.v mem_string
+  statements : `L.remove(x)` on an LS name with x a str: L without its first item equal to x (a closed local fixpoint; the
+               ValueError of an absent x is a recorded error path);
+               `if x is None: x = d` on an optional boolean x with d itself an optional boolean: x stays optional -- its own
+               value when it has one, else d's (a plain-boolean d narrows x as before)"""
 import ast, os, sys, glob, importlib.util
 from fractions import Fraction
 
@@ -398,6 +404,12 @@ class FnTranslator:
                     if a[1] != 'S':
                         raise Refuse('%s: `in` a dict with string keys on type %s' % (self.rel, a[1]))
                     t = '(mem_string %s [%s])' % (a[0], '; '.join(slit(k) for k, _ in env[rhs.id][0]))
+                    return (t if isinstance(op, ast.In) else '(negb %s)' % t, 'B')
+                if not isinstance(rhs, (ast.List, ast.Tuple, ast.Set)) and a[1] == 'S' \
+                        and env.get(ast.unparse(rhs), ('', ''))[1] == 'LS':
+                    # [loop ties e4] `s in L` / `s not in L` with L a declared list of strings (type LS: a Python list / tuple
+                    # of str) and s a str: membership by string equality -- Base/Str.v mem_string
+                    t = '(mem_string %s %s)' % (a[0], env[ast.unparse(rhs)][0])
                     return (t if isinstance(op, ast.In) else '(negb %s)' % t, 'B')
                 if not isinstance(rhs, (ast.List, ast.Tuple, ast.Set)):
                     raise Refuse('`in` only against a literal sequence')
@@ -1465,6 +1477,14 @@ class FnTranslator:
                     self.block(list(some_side or []) + rest, env2, ret))
             if len(s.body) == 1 and isinstance(s.body[0], ast.Assign) and self.target_key(s.body[0].targets[0]) == name:
                 d = self.expr(s.body[0].value, env)
+                if d[1] == 'OB':
+                    # [loop ties e4] `if x is None: x = <an optional boolean>` (e.g. a guess that may itself be missing): x stays
+                    # an optional boolean -- its own value when it has one, else the default's
+                    nm = self.new(name)
+                    env2 = dict(env)
+                    env2[name] = (nm, 'OB')
+                    return '(let %s := (match %s with Some _ => %s | None => %s end) in\n   %s)' % (
+                        nm, env[name][0], env[name][0], d[0], self.block(rest, env2, ret))
                 if d[1] != 'B':
                     raise Refuse('%s: default of the optional boolean %s has type %s' % (self.rel, name, d[1]))
                 nm = self.new(name)
@@ -1605,6 +1625,25 @@ class FnTranslator:
             if len(nms) == 1:
                 return '(let %s := %s in\n   %s)' % (nms[0], whole, body)
             return "(let '(%s) := %s in\n   %s)" % (', '.join(nms), whole, body)
+        if isinstance(s, ast.Expr) and isinstance(s.value, ast.Call) and isinstance(s.value.func, ast.Attribute) \
+                and s.value.func.attr == 'remove' and isinstance(s.value.func.value, ast.Name) \
+                and len(s.value.args) == 1 and not s.value.keywords and env.get(s.value.func.value.id, ('', ''))[1] == 'LS':
+            # [loop ties e4] `L.remove(x)` on a list of strings L (type LS, a value in the translation) with x a str: L without
+            # the FIRST item equal to x; when no item equals x Python raises ValueError -- an error path outside the
+            # translation (recorded).  Emitted as a closed local fixpoint (no library dependency).
+            lname = s.value.func.value.id
+            x = self.expr(s.value.args[0], env)
+            if x[1] != 'S':
+                raise Refuse('%s: %s.remove(x) with x of type %s' % (self.rel, lname, x[1]))
+            g = '%s not in %s   (ValueError at %s)' % (ast.unparse(s.value.args[0]), lname, ast.unparse(s.value))
+            if g not in self.guards:
+                self.guards.append(g)
+            nm, xv = self.new(lname), self.new('rm_x')
+            env2 = dict(env)
+            env2[lname] = (nm, 'LS')
+            term = ('(let %s := %s in (fix rm_ (l_ : list string) : list string := match l_ with nil => nil '
+                    '| cons y_ t_ => if String.eqb %s y_ then t_ else cons y_ (rm_ t_) end) %s)' % (xv, x[0], xv, env[lname][0]))
+            return '(let %s := %s in\n   %s)' % (nm, term, self.block(rest, env2, ret))
         if isinstance(s, ast.For) and getattr(self, 'yield_types', None) and 'yield__' in env:
             return self.yield_only_for(s, rest, env, ret)          # [loop ties C06]
         if isinstance(s, ast.Try):
